@@ -143,6 +143,9 @@ Apply(s, act, acc) ==
       [] act.a = "checkpeers" -> Check(s, "peers", act.set, acc)
       [] act.a = "checkall"   -> Check(s, "all", {}, acc)
       [] act.a = "watch"      -> WatchCheck(s, acc)
+      \* an undecodable message on the metrics topic (act.kind: random / truncated / empty / wrongtype) is
+      \* dropped and nothing else changes - in particular later metrics are received as before
+      [] act.a = "garbage"    -> [s |-> s, alerts |-> <<>>]
 
 -----------------------------------------------------------------------------
 (* Part 2: the property statement, on an observer fed with inputs only.     *)
@@ -181,6 +184,7 @@ ObsStep(o, act, nBefore, alerts) ==
                 [] act.a = "checkpeers" -> [o1 EXCEPT !.scope = act.set \X NAMES]
                 [] act.a = "checkall" ->
                      [o1 EXCEPT !.scope = {pr \in Pairs : o.last[pr[2]][pr[1]] # NONE /\ o.last[pr[2]][pr[1]].valid}]
+                [] act.a = "garbage" -> o1
                 [] act.a = "watch" ->       \* one Watch tick: what it has to cover follows from the peerset
                      [o1 EXCEPT !.scope =
                          CASE o.ps.kind = "nil" -> {pr \in Pairs : o.last[pr[2]][pr[1]] # NONE /\ o.last[pr[2]][pr[1]].valid}
@@ -218,7 +222,15 @@ Reported(o)  == \A pr \in o.scope : Owed(o, pr) => o.since[pr[1]][pr[2]] >= 1
 Forgotten(o, obs) ==
     \A pr \in o.scope : (Owed(o, pr) /\ o.pre[pr[1]][pr[2]] >= Thr) => obs.stored[pr[2]][pr[1]] = 0
 
-PropNames == <<"AtMostOne", "IsLatest", "ValidUnexpiredMember", "NoFalseAlarm", "AlertOnce", "Reported", "Forgotten">>
+\* fresh metrics from members ARE used: the most recently received metric of a peer is reported
+\* whenever it is valid, unexpired and (peerset known) from a member
+Used(o, obs) ==
+    \A nm \in NAMES, p \in PEERS :
+        LET m == o.last[nm][p]
+        IN (m # NONE /\ m.valid /\ ~Expired(o.now, m) /\ o.ps.kind # "err" /\ (o.ps.kind = "set" => p \in o.ps.set))
+             => \E e \in obs.latest[nm] : e.peer = p
+
+PropNames == <<"AtMostOne", "IsLatest", "ValidUnexpiredMember", "NoFalseAlarm", "AlertOnce", "Reported", "Forgotten", "Used">>
 PropHolds(k, o, obs) ==
     CASE k = 1 -> AtMostOne(obs)
       [] k = 2 -> IsLatest(o, obs)
@@ -227,11 +239,12 @@ PropHolds(k, o, obs) ==
       [] k = 5 -> AlertOnce(o)
       [] k = 6 -> Reported(o)
       [] k = 7 -> Forgotten(o, obs)
+      [] k = 8 -> Used(o, obs)
 \* the (peer, name) pairs a broken alert-cycle predicate is about (for reporting)
 Offenders(k, o, obs) ==
     CASE k = 5 -> {pr \in Pairs : o.since[pr[1]][pr[2]] > Thr}
       [] k = 6 -> {pr \in o.scope : Owed(o, pr) /\ o.since[pr[1]][pr[2]] < 1}
       [] k = 7 -> {pr \in o.scope : Owed(o, pr) /\ o.pre[pr[1]][pr[2]] >= Thr /\ obs.stored[pr[2]][pr[1]] # 0}
       [] OTHER -> {}
-BrokenProps(o, obs) == {k \in 1..7 : ~PropHolds(k, o, obs)}
+BrokenProps(o, obs) == {k \in 1..8 : ~PropHolds(k, o, obs)}
 =============================================================================
